@@ -4,7 +4,9 @@ import Driver.Obj
 import Driver.Rows
 import Driver.HashMeta
 import Driver.BTree
+import Driver.BTreeFault
 import Driver.Arr
+import Driver.ArrFault
 import Driver.Pool
 import Driver.PoolAlloc
 import Driver.Columns
@@ -32,7 +34,9 @@ def engines : List (String × Engine) := [
   ("rows", Driver.Rows.engine),
   ("hashmeta", Driver.HashMeta.engine),
   ("btree", Driver.BTree.engine),
+  ("btreefault", Driver.BTreeFault.engine),
   ("arr", Driver.Arr.engine),
+  ("arrfault", Driver.ArrFault.engine),
   ("pool", Driver.Pool.engine),
   ("poolalloc", Driver.PoolAlloc.engine),
   ("columns", Driver.Columns.engine),
